@@ -290,7 +290,13 @@ func (x *X) guard(what, where string, f func()) (ok bool) {
 		if r := recover(); r != nil {
 			st := string(debug.Stack())
 			site := panicSite(st)
-			x.Violate("panic@"+site, "%s panicked: %v\n  input: %s\n  at %s", what, r, where, site)
+			sig := "panic@" + site
+			if x.faultClass != "" {
+				// the kind of damage is part of the signature: a known crash on one input class
+				// must not hide a new crash at the same site on another
+				sig += ":" + x.faultClass
+			}
+			x.Violate(sig, "%s panicked: %v\n  input: %s\n  at %s", what, r, where, site)
 			ok = false
 		}
 	}()
@@ -489,6 +495,20 @@ func (x *X) feed(data []byte, where string, which int, rdcfg func(*SimReader), c
 	}
 }
 
+// faultClassOf names the kind of damage by its effect: nulling an array element
+// is the (known) "null array element" class whichever operator produced it.
+func faultClassOf(root *JV, op Op) string {
+	if op.K == "nullelem" {
+		return "nullelem"
+	}
+	if op.K == "null" {
+		if _, parent, _, _ := At(root, op.S); parent != nil && parent.K == 'a' {
+			return "nullelem"
+		}
+	}
+	return op.K
+}
+
 func c14mutate(root *JV, op Op) ([]byte, bool) {
 	switch op.K {
 	case "remove", "alter", "delelem", "dupelem":
@@ -590,6 +610,7 @@ func execC14(x *X) {
 			where := fmt.Sprintf("%s with %s at %s %s", d.Name, op.K, op.S, op.S2)
 			x.Case(fmt.Sprintf("%s|%s|%s|%s|%d", d.Name, op.K, op.S, op.S2, op.J))
 			x.Fault("member-" + op.K)
+			x.faultClass = faultClassOf(base, op)
 			if op.K == "remove" {
 				x.Probe("member-lost-then-full-chain")
 			}
@@ -601,6 +622,7 @@ func execC14(x *X) {
 			if dt, err := ParseJV(dam); err == nil && dt.Get("doc") != nil && dt.Get("doc").K == 'o' && op.J%2 == 0 {
 				x.feed(dt.Get("doc").Encode(nil), where+" (bare document)", int(op.J)+1, nil, nil)
 			}
+			x.faultClass = ""
 		case "streams":
 			where := fmt.Sprintf("%s with stream fault %s at byte %d", d.Name, op.K, op.I)
 			x.Case(fmt.Sprintf("%s|%s|%d|%d", d.Name, op.K, op.I, op.N))
